@@ -32,6 +32,7 @@ META = {
 IMPORTS = 'From Verif Require Import Server.Model Server.Inst Server.Run.'
 CELL_T = 'cell * list (body * obs)'
 HIST_T = 'world * list oopres'
+ENUM_T = 'enum_case'
 PRIMARY, MAX_DBS = 'corp_main', 5
 
 
@@ -47,7 +48,7 @@ def run(ck):
                'garbage, key of A, key of B, revoked, 7 malformed/near-miss forms of the admin key, admin) x every method name of '
                'both generated tables + 8 unknown names x {no params, valid params, params pointing at another tenant} + malformed '
                'and oversized bodies; worlds = 7 fixed histories (tenants, rotated, unbound, closed/reopened, restarted, shared key '
-               '+ attempts on primary/missing, instance without admin key) + random histories of 7-14 admin operations; reads phase '
+               '+ attempts on primary/missing, instance without admin key) + random histories of 7-14 admin operations; every sequence of <= 3 (quick) / 4 (thorough) operations over an 11-operation alphabet (create A/B with key, create without key, set/rotate/share key, remove key of A/B, close, open, restart), each probed (4 databases x 5 tokens) before and after a restart over the same store; reads phase '
                '= every Read method x 10 lifecycle states x {admin, tenant key} x {CBOR, JSON}; non-trivial = a distinct model-compared '
                'cell (world, verb, route, principal, encoding) of a non-admin caller on an RPC route')
     ck.translate()
@@ -63,7 +64,8 @@ def run(ck):
     rc = subprocess.run([sys.executable, vlib.ROOT + '/tools/gen_server.py', '--json', '--repo', vlib.REPO],
                         stdout=subprocess.PIPE, stderr=subprocess.PIPE)
     try:
-        tables = json.loads(rc.stdout.decode())
+        text = rc.stdout.decode()       # a lost anchor prints LOST-ANCHOR lines ahead of the JSON (reported by ck.translate above);
+        tables = json.loads(text[text.index('{'):])   # the harness still needs the name/effect tables to look for a failing input
         json.dump(tables, open(tables_path, 'w'))
     except Exception:
         tables = None
@@ -71,14 +73,14 @@ def run(ck):
     binary = ck.cargo('h_server') if tables is not None else None
     if binary:
         out = ck.work + '/c14.jsonl'
-        args = ['c14', '--out', out, '--tables', tables_path, '--random', '2' if quick else '24']
+        args = ['c14', '--out', out, '--tables', tables_path, '--random', '2' if quick else '24', '--enum', '3' if quick else '4']
         rc, text = ck.run_harness(binary, args, timeout=1500 if quick else 3000)
         ok = ck.ob('harness c14 ran', rc == 0 and os.path.exists(out), 'correspondence', text[-2000:])
         if ok:
             rows = [json.loads(l) for l in open(out)]
             summary = [r for r in rows if r['kind'] == 'summary'][-1]
             cells = [r for r in rows if r['kind'] == 'model']
-            hists = [r for r in rows if r['kind'] == 'history']
+            hists = [r for r in rows if r['kind'] == 'history' and r.get('label') != 'enum']
             ck.count(summary['evaluations'])
             ck.cov['input_distribution'] = {k: summary[k] for k in (
                 'classes', 'by_principal', 'worlds', 'tenant_requests_handled', 'tenant_mutations', 'reads', 'read_ok_by_method')}
@@ -106,7 +108,7 @@ def run(ck):
                   'handled=%s mutations=%s' % (summary['tenant_requests_handled'], summary['tenant_mutations']))
             # ---- model = implementation: histories, then every cell of the matrix
             hcases = [{'t': [world_term(r['case']), r['obs']]} for r in hists]
-            hres = ck.eval_cases(IMPORTS, HIST_T, 'check_history', hcases, label='hist')
+            hres = ck.eval_cases(IMPORTS, HIST_T, 'check_history', hcases, shard=max(250, len(hcases) // 48 + 1), timeout=1200, label='hist')
             hbad = [i for i, r in enumerate(hres) if r is not True]
             detail = ''
             if hbad:
@@ -116,6 +118,40 @@ def run(ck):
                     hists[i]['label'], json.dumps(hists[i]['case']), json.dumps(hists[i]['obs']),
                     ck.eval_term(IMPORTS, 'run_history_results ' + to_coq(world_term(hists[i]['case']))))
             ck.ob('model = implementation on the result of every admin operation of %d histories' % len(hcases), not hbad, 'correspondence', detail)
+            # ---- enumerated histories: per history one compact case = operation results + the bindings probed after the
+            # sequence and again after a restart over the same store (the harness writes: probe, probe, history)
+            probes = [r for r in rows if r['kind'] == 'probe']
+            ehists = [r for r in rows if r['kind'] == 'history' and r.get('label') == 'enum']
+            ecases, ok_shape = [], len(probes) == 2 * len(ehists)
+            for k, hr in enumerate(ehists if ok_shape else []):
+                before, after = probes[2 * k], probes[2 * k + 1]
+                admin, ops = hr['case']['t']
+                ok_shape = ok_shape and before['case']['t'][1] == ops[:-1] and after['case']['t'][1] == ops
+                dbs, auths = [], []
+                for o in before['obs']:
+                    d, a = o['t'][0][0], o['t'][1]
+                    if d not in dbs:
+                        dbs.append(d)
+                    if a not in auths:
+                        auths.append(a)
+                ecases.append({'t': [world_term({'t': [admin, ops[:-1]]}), hr['obs'], dbs, auths,
+                                     [o['t'][2] for o in before['obs']], [o['t'][2] for o in after['obs']]]})
+                ck.nontrivial(before['key'])
+            eres = ck.eval_cases(IMPORTS, ENUM_T, 'check_enum', ecases, shard=max(100, len(ecases) // 48 + 1), timeout=1200, label='enum')
+            ebad = [i for i, r in enumerate(eres) if r is not True]
+            detail = ''
+            if ebad:
+                from coqterm import to_coq
+                i = ebad[0]
+                c = ecases[i]['t']
+                detail = 'history: %s\nobserved results: %s\nobserved before restart: %s\nobserved after restart: %s\nmodel (results, before, after): %s' % (
+                    json.dumps(c[0])[:1500], json.dumps(c[1])[:800], json.dumps(c[4])[:1500], json.dumps(c[5])[:1500],
+                    ck.eval_term(IMPORTS, 'run_enum %s %s %s' % (to_coq(c[0]), to_coq(c[2]), to_coq(c[3])))[:4000])
+            ck.ob('model = implementation on every sequence of <= %d admin operations (11-operation alphabet: create with/without key, rotate, '
+                  'share, remove, close, open, restart): result of every operation, and the answer to every (database, token) probe before and '
+                  'after a restart over the same store (%d histories)' % (summary['enumerated_max_len'], len(ecases)),
+                  ok_shape and not ebad and len(ecases) > 0, 'correspondence', detail)
+            ck.cov['input_distribution']['enumerated_histories'] = {k: summary[k] for k in ('enumerated_histories', 'enumerated_max_len', 'probe_cases', 'probes_by_entitled_key')}
             cases = []
             for r in cells:
                 w, verb, path, auth, ct = r['case']['t']
